@@ -17,6 +17,7 @@
         lemma_cong_sym(demont(x) * 4_294_967_296, x);
     }
     // sum over the first j columns of A[k][.][n] * NTT(z_.)[n]
+    #[verifier::opaque]
     pub open spec fn dotz<const K: usize, const L: usize>(a: [[T; L]; K], zs: Seq<Seq<int>>, k: int, n: int, j: int) -> int
         decreases j
     {
@@ -27,6 +28,7 @@
         ensures cong(dotp(a, u, k, n, j), dotz(a, zs, k, n, j)),
         decreases j
     {
+        reveal_with_fuel(dotz, 2);
         if j > 0 {
             lemma_dot_cong(a, u, zs, k, n, j - 1);
             lemma_cong_refl(a[k][j - 1].0[n] as int);
@@ -141,4 +143,117 @@
         lemma_cong_sym(r, demont(r) * 4_294_967_296);
         lemma_cong_trans(demont(r) * 4_294_967_296, r, e * 4_294_967_296);
         lemma_cong_cancel_r32(demont(r), e);
+    }
+    // ---- FIPS 204 Algorithm 7 (Sign_internal): the emitted signature is an accepted attempt for some kappa
+    pub proof fn lemma_mod_pm_cong(a: int, b: int)
+        requires cong(a, b),
+        ensures mod_pm(a, Q as int) == mod_pm(b, Q as int),
+    { lemma_cong_same_mod(a, b); }
+    pub proof fn lemma_decompose_cong(g: int, a: int, b: int)
+        requires cong(a, b),
+        ensures spec_decompose(g, a) == spec_decompose(g, b), spec_high_bits(g, a) == spec_high_bits(g, b), spec_low_bits(g, a) == spec_low_bits(g, b),
+    { lemma_cong_same_mod(a, b); }
+    pub proof fn lemma_make_hint_cong(g: int, z: int, r1: int, r2: int)
+        requires cong(r1, r2),
+        ensures spec_make_hint(g, z, r1) == spec_make_hint(g, z, r2),
+    {
+        lemma_decompose_cong(g, r1, r2);
+        lemma_cong_refl(z);
+        lemma_cong_add(r1, r2, z, z);
+        lemma_decompose_cong(g, r1 + z, r2 + z);
+    }
+    pub open spec fn mask_ys(rhopp: Seq<u8>, kappa: int, gamma1: int, l: int) -> Seq<Seq<int>> {
+        Seq::new(l as nat, |i: int| Seq::new(256, |n: int| spec_mask_coef(rhopp, kappa + i, gamma1, n)))
+    }
+    pub open spec fn sgn_wbar_seq<const K: usize, const L: usize>(a: [[T; L]; K], ys: Seq<Seq<int>>, k: int) -> Seq<int> {
+        Seq::new(256, |n: int| dotz(a, ys, k, n, L as int))
+    }
+    pub open spec fn sgn_w<const K: usize, const L: usize>(a: [[T; L]; K], ys: Seq<Seq<int>>, k: int) -> Seq<int> { spec_invntt(sgn_wbar_seq(a, ys, k)) }
+    // c * s for a secret polynomial stored as NTT(s) in Montgomery form
+    pub open spec fn cmul_seq(c: Seq<int>, shm: [i32; 256]) -> Seq<int> { Seq::new(256, |n: int| spec_ntt(c)[n] * demont(shm[n] as int)) }
+    pub open spec fn cmul(c: Seq<int>, shm: [i32; 256]) -> Seq<int> { spec_invntt(cmul_seq(c, shm)) }
+    pub open spec fn sgn_w1fn<const K: usize, const L: usize>(a: [[T; L]; K], ys: Seq<Seq<int>>, gamma2: int) -> spec_fn(int, int) -> int {
+        |k: int, n: int| spec_high_bits(gamma2, sgn_w(a, ys, k)[n])
+    }
+    pub open spec fn sign_commit<const K: usize, const L: usize>(a: [[T; L]; K], ys: Seq<Seq<int>>, mu: Seq<u8>, sig: Seq<u8>, gamma2: int, lam4: int) -> bool {
+        exists|w1b: Seq<u8>| #[trigger] w1_fields_ok(w1b, gamma2, K as int, sgn_w1fn(a, ys, gamma2)) && sig.subrange(0, lam4) == stream_take(shake256(mu + w1b), 0, lam4)
+    }
+    pub open spec fn sign_attempt<const K: usize, const L: usize>(a: [[T; L]; K], sk: PrivateKey<K, L>, ys: Seq<Seq<int>>, c: R, sig: Seq<u8>,
+            beta: int, gamma1: int, gamma2: int, omega: int, lam4: int) -> bool {
+        let cs = poly_ints(c.0);
+        &&& forall|l: int, n: int| 0 <= l < L && 0 <= n < 256 ==>
+                #[trigger] sig_z(sig, gamma1, lam4, l, n) == mod_pm(ys[l][n] + cmul(cs, sk.s_1_hat_mont[l].0)[n], Q as int)
+        &&& sig_z_norm_ok(sig, gamma1, beta, lam4, L as int)
+        &&& forall|k: int, n: int| 0 <= k < K && 0 <= n < 256 ==>
+                spec_abs(spec_low_bits(gamma2, #[trigger] sgn_w(a, ys, k)[n] - cmul(cs, sk.s_2_hat_mont[k].0)[n])) < gamma2 - beta
+        &&& forall|k: int, n: int| 0 <= k < K && 0 <= n < 256 ==> spec_abs(mod_pm(#[trigger] cmul(cs, sk.t_0_hat_mont[k].0)[n], Q as int)) < gamma2
+        &&& forall|k: int, n: int| 0 <= k < K && 0 <= n < 256 ==> #[trigger] sig_h(sig, gamma1, lam4, L as int, omega, k, n) == (if spec_make_hint(gamma2,
+                Q - cmul(cs, sk.t_0_hat_mont[k].0)[n],
+                sgn_w(a, ys, k)[n] - cmul(cs, sk.s_2_hat_mont[k].0)[n] + cmul(cs, sk.t_0_hat_mont[k].0)[n]) { 1int } else { 0int })
+    }
+    pub open spec fn sign_rhopp(cap_k: Seq<u8>, rnd: Seq<u8>, mu: Seq<u8>) -> Seq<u8> { stream_take(shake256(cap_k + rnd + mu), 0, 64) }
+    pub open spec fn sign_wit<const K: usize, const L: usize>(sk: PrivateKey<K, L>, sig: Seq<u8>, tau: int, lam4: int, a: [[T; L]; K], c: R, kappa: int) -> bool {
+        expand_a_rel(sk.rho@, a) && sib_rel(tau, shake256(sig.subrange(0, lam4)), c) && kappa >= 0 && kappa % (L as int) == 0
+    }
+    pub open spec fn sign_spec<const K: usize, const L: usize>(sig: Seq<u8>, sk: PrivateKey<K, L>, mu: Seq<u8>, rnd: Seq<u8>,
+            beta: int, gamma1: int, gamma2: int, omega: int, tau: int, lam4: int) -> bool {
+        exists|a: [[T; L]; K], c: R, kappa: int| #[trigger] sign_wit(sk, sig, tau, lam4, a, c, kappa)
+            && sign_commit(a, mask_ys(sign_rhopp(sk.cap_k@, rnd, mu), kappa, gamma1, L as int), mu, sig, gamma2, lam4)
+            && sign_attempt(a, sk, mask_ys(sign_rhopp(sk.cap_k@, rnd, mu), kappa, gamma1, L as int), c, sig, beta, gamma1, gamma2, omega, lam4)
+    }
+    // the same attempt, stated over the signer's working variables (before encoding)
+    pub open spec fn attempt_exec<const K: usize, const L: usize>(a: [[T; L]; K], sk: PrivateKey<K, L>, ys: Seq<Seq<int>>, c: R, c_tilde: Seq<u8>,
+            z: [R; L], h: [R; K], mu: Seq<u8>, beta: int, gamma1: int, gamma2: int, lam4: int) -> bool {
+        let cs = poly_ints(c.0);
+        &&& forall|l: int, n: int| 0 <= l < L && 0 <= n < 256 ==> cong(#[trigger] z[l].0[n] as int, ys[l][n] + cmul(cs, sk.s_1_hat_mont[l].0)[n])
+        &&& forall|l: int, n: int| 0 <= l < L && 0 <= n < 256 ==> in_red_dom(#[trigger] z[l].0[n] as int) && spec_abs(mod_pm(z[l].0[n] as int, Q as int)) < gamma1 - beta
+        &&& forall|k: int, n: int| 0 <= k < K && 0 <= n < 256 ==>
+                spec_abs(spec_low_bits(gamma2, #[trigger] sgn_w(a, ys, k)[n] - cmul(cs, sk.s_2_hat_mont[k].0)[n])) < gamma2 - beta
+        &&& forall|k: int, n: int| 0 <= k < K && 0 <= n < 256 ==> spec_abs(mod_pm(#[trigger] cmul(cs, sk.t_0_hat_mont[k].0)[n], Q as int)) < gamma2
+        &&& forall|k: int, n: int| 0 <= k < K && 0 <= n < 256 ==> #[trigger] h[k].0[n] as int == (if spec_make_hint(gamma2,
+                Q - cmul(cs, sk.t_0_hat_mont[k].0)[n],
+                sgn_w(a, ys, k)[n] - cmul(cs, sk.s_2_hat_mont[k].0)[n] + cmul(cs, sk.t_0_hat_mont[k].0)[n]) { 1int } else { 0int })
+        &&& exists|w1b: Seq<u8>| #[trigger] w1_fields_ok(w1b, gamma2, K as int, sgn_w1fn(a, ys, gamma2)) && c_tilde == stream_take(shake256(mu + w1b), 0, lam4)
+    }
+    pub proof fn lemma_mod_step(k: int, l: int)
+        requires l > 0, k >= 0, k % l == 0,
+        ensures (k + l) % l == 0, k + l >= 0,
+    {
+        vstd::arithmetic::div_mod::lemma_mod_add_multiples_vanish(k, l);
+        assert((l + k) % l == k % l);
+    }
+    // from the accepted attempt over the working variables and sig_encode's field-level postcondition to sign_spec over the bytes
+    pub proof fn lemma_sign_final<const K: usize, const L: usize>(sig: Seq<u8>, sk: PrivateKey<K, L>, a: [[T; L]; K], c: R, kappa: int, c_tilde: Seq<u8>,
+            z: [R; L], zmodq: [R; L], h: [R; K], mu: Seq<u8>, rnd: Seq<u8>, rhopp: Seq<u8>, beta: int, gamma1: int, gamma2: int, omega: int, tau: int, lam4: int)
+        requires
+            gamma1_ok(gamma1), gamma2_ok(gamma2), 1 <= K <= 8, 1 <= L <= 8, 0 <= lam4 <= 64, kappa >= 0, kappa % (L as int) == 0,
+            expand_a_rel(sk.rho@, a), sib_rel(tau, shake256(c_tilde), c), rhopp == sign_rhopp(sk.cap_k@, rnd, mu),
+            attempt_exec(a, sk, mask_ys(rhopp, kappa, gamma1, L as int), c, c_tilde, z, h, mu, beta, gamma1, gamma2, lam4),
+            forall|l: int, n: int| 0 <= l < L && 0 <= n < 256 ==> #[trigger] zmodq[l].0[n] as int == mod_pm(z[l].0[n] as int, Q as int),
+            sig.subrange(0, lam4) == c_tilde,
+            forall|i: int, j: int| 0 <= i < L && 0 <= j < 256 ==>
+                #[trigger] field(sig_z_bytes(sig, gamma1, lam4, i), 1 + spec_bitlen(gamma1 - 1), j) == gamma1 - zmodq[i].0[j],
+            forall|i: int, j: int| 0 <= i < K && 0 <= j < 256 ==>
+                #[trigger] h[i].0[j] == (if hint_has(sig_hint_bytes(sig, gamma1, lam4, L as int), omega, i, j) { 1i32 } else { 0i32 }),
+        ensures
+            sign_spec(sig, sk, mu, rnd, beta, gamma1, gamma2, omega, tau, lam4),
+            sig_z_norm_ok(sig, gamma1, beta, lam4, L as int),
+    {
+        lemma_bitlen_consts();
+        let ys = mask_ys(rhopp, kappa, gamma1, L as int);
+        let cs = poly_ints(c.0);
+        assert(spec_bitlen(gamma1 - 1 + gamma1) == 1 + spec_bitlen(gamma1 - 1));
+        assert forall|l: int, n: int| 0 <= l < L && 0 <= n < 256 implies
+            #[trigger] sig_z(sig, gamma1, lam4, l, n) == mod_pm(ys[l][n] + cmul(cs, sk.s_1_hat_mont[l].0)[n], Q as int)
+            && -(gamma1 - beta) < sig_z(sig, gamma1, lam4, l, n) < gamma1 - beta by {
+            assert(field(sig_z_bytes(sig, gamma1, lam4, l), 1 + spec_bitlen(gamma1 - 1), n) == gamma1 - zmodq[l].0[n]);
+            assert(sig_z(sig, gamma1, lam4, l, n) == zmodq[l].0[n] as int);
+            assert(cong(z[l].0[n] as int, ys[l][n] + cmul(cs, sk.s_1_hat_mont[l].0)[n]));
+            lemma_mod_pm_cong(z[l].0[n] as int, ys[l][n] + cmul(cs, sk.s_1_hat_mont[l].0)[n]);
+            assert(spec_abs(mod_pm(z[l].0[n] as int, Q as int)) < gamma1 - beta);
+        }
+        assert forall|k: int, n: int| 0 <= k < K && 0 <= n < 256 implies #[trigger] sig_h(sig, gamma1, lam4, L as int, omega, k, n) == h[k].0[n] as int by { }
+        assert(sign_attempt(a, sk, ys, c, sig, beta, gamma1, gamma2, omega, lam4));
+        assert(sign_commit(a, ys, mu, sig, gamma2, lam4));
+        assert(sign_wit(sk, sig, tau, lam4, a, c, kappa));
     }
